@@ -8,7 +8,8 @@ For ANY order and batching of event delivery (plain `Reachable`):
 * `sI_ongoing_live`   — something `ongoing` ⇒ an event is pending or an executor step is enabled;
 * `sI_announced_live` — a requested output that was announced and not yet delivered, in phase `waiting` ⇒ its fetch
                         is outstanding or its payload is pending.
-Under per-producer FIFO delivery (`ReachableFifo`), on a feasible cluster:
+On a feasible cluster, also for ANY order and batching (`ReachableX`; completion is detected from the notices of ALL
+outputs, Tier P):
 * `sI_iter_reachable` — an iteration that has something computable has something in flight after `assign()`
                         (`sI_Iter`; from the progress theorem `sP_progress`'s invariant `sP_Good`);
 * `sI_wait_ongoing_or_announced` — in phase `waiting`, something is ongoing or every requested output was announced;
@@ -77,7 +78,7 @@ theorem sI_ongoing_live (f : Sem) (j : Job) (cl : Cluster) (wf : WF j cl) (s : S
       exact ⟨_, e', he⟩
     · exact Or.inr (sI_outstanding_live f j s.env hout)
   · left
-    have := hI.last_notice w t hfl hran
+    obtain ⟨k, _, this⟩ := sI_W1_reachable f j cl wf s hr w t hfl hran
     simp only [Sys.allEv, hib, List.nil_append] at this
     exact List.ne_nil_of_mem this
 
@@ -100,7 +101,7 @@ theorem sI_announced_live (f : Sem) (j : Job) (cl : Cluster) (wf : WF j cl) (s :
       simp only [Sys.allEv, hib, List.nil_append] at hm
       exact List.ne_nil_of_mem hm
 
-/-! ### the iteration invariant (FIFO): something computable ⇒ something in flight after `assign()` -/
+/-! ### the iteration invariant: something computable ⇒ something in flight after `assign()` -/
 
 /-- the phases of one iteration between `enter` and `recv` -/
 def sI_five (p : Phase) : Prop := p = .assigning ∨ p = .planning ∨ p = .flushF ∨ p = .flushP ∨ p = .waiting
@@ -212,7 +213,7 @@ theorem sI_iter_init (j : Job) (cl : Cluster) (cm : Comps) : sI_Iter j cl cm (Sy
   simp [sI_five, SysX.init, Sys.init] at h5
 
 theorem sI_iter_step (f : Sem) (j : Job) (cl : Cluster) (cm : Comps) (wf : WF j cl) (wfc : WFC j cm)
-    (feas : Feasible j cl) (x x' : SysX) (st : StepX) (hr : ReachableFifo f j cl cm x) (hI : sI_Iter j cl cm x)
+    (feas : Feasible j cl) (x x' : SysX) (st : StepX) (hr : ReachableX f j cl cm x) (hI : sI_Iter j cl cm x)
     (hs : stepX f j cl cm x st = some x') : sI_Iter j cl cm x' := by
   intro h5 hcomp
   -- from the pre-state's disjunction
@@ -227,9 +228,9 @@ theorem sI_iter_step (f : Sem) (j : Job) (cl : Cluster) (cm : Comps) (wf : WF j 
       · rw [h] at h5; simp [sI_five] at h5
       · exact Or.inr (Or.inl h)
       · exact Or.inr (Or.inr ⟨c0, w0, g, hE, h⟩)
-  rcases sF_stepX_proj f j cl cm x x' st hs with hsys | ⟨bst, rfl, hb⟩
+  rcases sL_stepX_proj f j cl cm x x' st hs with hsys | ⟨bst, rfl, hb⟩
   · exact carry (by rw [← hsys]; exact h5) (by rw [hsys]) (by rw [hsys]) (by rw [hsys])
-  · have hA := invAll_reachable f j cl wf x.sys (sF_reachable_base f j cl cm x hr)
+  · have hA := invAll_reachable f j cl wf x.sys (sL_reachableX_base f j cl cm x hr)
     by_cases htop : x.sys.phase = .top
     · rcases sI_top_step f j cl x.sys x'.sys bst hb htop with rfl | ⟨es, rfl⟩
       · obtain ⟨ectl, _, _, _⟩ := sI_ctrl_step f j cl x.sys x'.sys _ hA.h1 rfl hb
@@ -261,24 +262,25 @@ theorem sI_iter_step (f : Sem) (j : Job) (cl : Cluster) (cm : Comps) (wf : WF j 
           · exact Or.inr (Or.inl (by rw [et]; exact h))
           · exact absurd hG.phase has
 
-/-- **the iteration invariant holds in every FIFO-reachable state of a feasible cluster** -/
+/-- **the iteration invariant holds in every reachable state of a feasible cluster** (any event order) -/
 theorem sI_iter_reachable (f : Sem) (j : Job) (cl : Cluster) (cm : Comps) (wf : WF j cl) (wfc : WFC j cm)
-    (feas : Feasible j cl) (x : SysX) (hr : ReachableFifo f j cl cm x) : sI_Iter j cl cm x := by
+    (feas : Feasible j cl) (x : SysX) (hr : ReachableX f j cl cm x) : sI_Iter j cl cm x := by
   induction hr with
   | init => exact sI_iter_init j cl cm
-  | step x x' st hx hff hs ih => exact sI_iter_step f j cl cm wf wfc feas x x' st hx ih hs
+  | step x x' st hx hs ih => exact sI_iter_step f j cl cm wf wfc feas x x' st hx ih hs
 
-/-! ### the theorems under FIFO delivery -/
+/-! ### the theorems on a feasible cluster (any event order) -/
 
-/-- **Under FIFO delivery the controller waits only for a task or for an announced output**: in phase `waiting`,
+/-- **The controller waits only for a task or for an announced output**: in phase `waiting`,
 something is ongoing, or every requested output that is still missing has been announced (so it is in the fetch
 pipeline, `sI_announced_live`). -/
 theorem sI_wait_ongoing_or_announced (f : Sem) (j : Job) (cl : Cluster) (cm : Comps) (wf : WF j cl) (wfc : WFC j cm)
-    (feas : Feasible j cl) (x : SysX) (hr : ReachableFifo f j cl cm x) (hw : x.sys.phase = .waiting) :
+    (feas : Feasible j cl) (x : SysX) (hr : ReachableX f j cl cm x) (hw : x.sys.phase = .waiting) :
     x.sys.ctl.ongoing ≠ [] ∨ ∀ ds, ds ∈ j.ext → x.sys.ctl.outputs ds = none → x.sys.ctl.announced ds = true := by
-  have hR := sF_reachable_base f j cl cm x hr
+  have hR := sL_reachableX_base f j cl cm x hr
   have hA := invAll_reachable f j cl wf x.sys hR
-  have hF := sF_reachable f j cl cm x wf hr
+  have hF := sL_reachableX f j cl cm wf x hr
+  have hDA := sL_done_announced f j cl wf x.sys hR
   have hIt := sI_iter_reachable f j cl cm wf wfc feas x hr
   by_cases hong : x.sys.ctl.ongoing = []
   · right
@@ -298,11 +300,11 @@ theorem sI_wait_ongoing_or_announced (f : Sem) (j : Job) (cl : Cluster) (cm : Co
         · exfalso
           rcases hF.disp_flight_or_done ds.task hd1 with ⟨w, hfl⟩ | hdone
           · exact hnofl w ds.task hfl
-          · have h3 : x.sys.ctl.announced ⟨ds.task, ds.out⟩ = true := hF.done_announced ds.task hdone ds.out hko
+          · have h3 : x.sys.ctl.announced ⟨ds.task, ds.out⟩ = true := hDA ds.task hdone ds.out hko
             have h4 : (⟨ds.task, ds.out⟩ : Ds) = ds := rfl
             rw [h4, hann] at h3
             cases h3
-        · obtain ⟨t', ht', _⟩ := sP_undisp_has_computable j cl cm x.sys wf wfc hA.h1 hF hnofl (cm.compOf ds.task)
+        · obtain ⟨t', ht', _⟩ := sP_undisp_has_computable j cl cm x.sys wf wfc hA.h1 hF hDA hnofl (cm.compOf ds.task)
             (ds.task + 1) ds.task (by omega) hlt rfl (by omega)
           exact List.ne_nil_of_mem ht'
       rcases hIt (Or.inr (Or.inr (Or.inr (Or.inr hw)))) hcomp with h | h | ⟨c0, w0, g, _, hG⟩
@@ -313,13 +315,13 @@ theorem sI_wait_ongoing_or_announced (f : Sem) (j : Job) (cl : Cluster) (cm : Co
         cases this
   · exact Or.inl hong
 
-/-- **No idle wait (C03, FIFO delivery, feasible cluster).** Whenever the controller blocks in `recv_events`, an
+/-- **No idle wait (C03, any event order, feasible cluster).** Whenever the controller blocks in `recv_events`, an
 event is already pending or an executor step is enabled: a queued task whose inputs are on its host can run, or an
 outstanding transfer/fetch can be performed. -/
 theorem sI_no_idle_wait (f : Sem) (j : Job) (cl : Cluster) (cm : Comps) (wf : WF j cl) (wfc : WFC j cm)
-    (feas : Feasible j cl) (x : SysX) (hr : ReachableFifo f j cl cm x) (hw : x.sys.phase = .waiting) :
+    (feas : Feasible j cl) (x : SysX) (hr : ReachableX f j cl cm x) (hw : x.sys.phase = .waiting) :
     x.sys.env.pending ≠ [] ∨ ∃ es e', envStep f j x.sys.env es = some e' := by
-  have hR := sF_reachable_base f j cl cm x hr
+  have hR := sL_reachableX_base f j cl cm x hr
   have hA := invAll_reachable f j cl wf x.sys hR
   have hI := sI_inv_reachable f j cl wf x.sys hR
   have hib : x.sys.inbox = [] := hA.h2.inbox_phase (by simp [hw]) (by simp [hw])
